@@ -3073,8 +3073,15 @@ class TensorDict(TensorDictBase):
                         result, prefix=result._memmap_prefix, metadata=metadata
                     )
                 result._tensordict[key_str] = result_tmp
+                if result._is_memmap:
+                    result_tmp._is_memmap = True
                 if result._is_locked:
-                    # a nested tensordict is bound under lock
+                    # a nested tensordict is bound under lock: it is locked too, under the
+                    # tensordict it is bound to and under that tensordict's locked parents
+                    result_tmp._propagate_lock(
+                        result._lock_parents_weakrefs + [weakref.ref(result)],
+                        is_compiling=is_compiling(),
+                    )
                     result._erase_cache_upwards()
             result = result_tmp
         return result
